@@ -762,8 +762,10 @@ def main():
     os.makedirs(os.path.dirname(OUT), exist_ok=True)
     old = open(OUT).read() if os.path.exists(OUT) else None
     if old != txt:
-        with open(OUT, "w") as f:
+        _tmp = OUT + ".tmp%d" % os.getpid()
+        with open(_tmp, "w") as f:
             f.write(txt)
+        os.replace(_tmp, OUT)  # atomic: a concurrent coqc never sees a partial file
     return {"sha256": sha, "organic_pre": pre, "organic_guards": guards, "organic_body": body,
             "builtin_ops": bops, "calc_multiplicity": calc, "top": list(top),
             "make_graph_defaults": [st_def, pi_def, copies], "origin_keeps_class": keeps}
